@@ -25,19 +25,26 @@ META = {
     "disabled": False,
     "level": "translation_validation",
     "level_text": "specs/MpqFormat.tla is an executable reference implementation of the MPQ V1/V2 on-disk format written from "
-                  "docs/src/formats/archives/mpq.md and the public format description (not from the Rust code), evaluated by TLC, with all "
-                  "cryptography from MpqCrypto.tla and zlib/bzip2 payloads handled by Python's zlib/bz2. Both directions are checked on "
-                  "TLC-generated configurations (V1/V2 x shift 0..3 x none/zlib/bzip2 x plain/encrypted/fix-key x 10 length classes around the "
-                  "sector size x 4 content classes; the reference writer additionally varies single-unit/sectored storage, hash-table "
-                  "size, deleted slots, hi-block table, pre-archive data): the reference decodes every library-written archive and the library "
-                  "reads every reference-written archive under four spellings; equality of contents (tokens, lengths, raw bytes), header "
-                  "conformance, absent names and listings are decided by TLC trace validation. The reference is model-checked for "
-                  "RefRead(RefWrite(f,c)) = f on 8/16-byte sectors, and its named library deviations are shown to break the round trip on the model.",
-    "level_note": "Trusted: TLC's evaluation of MpqFormat.tla/MpqCrypto.tla/Word32.tla and CPython's zlib/bz2/hashlib. Subset: classic "
-                  "hash/block tables, no sector CRC, no HET/BET, neutral locale, archives <= ~17 KB; PKWARE implode/huffman/ADPCM/LZMA/sparse are "
-                  "outside the property's subset. Three genuine deviations of the library from the published format are reported as known "
-                  "findings (dword-granular cipher tail, full-path file key, multi-sector files without COMPRESS); a rejected file is attributed to "
-                  "them only if the named-deviation dialect of the specification reproduces the file exactly, everything else is a violation.",
+                  "docs/src/formats/archives/mpq.md and the public format description (not from the Rust code). TLC evaluates all of it: "
+                  "header search incl. user data header, header conformance, decryption and layout of the hash/block tables, locale-aware "
+                  "probing across deleted slots, block flags, single-unit / raw-sector / sector-offset-table layouts, file keys (plain name, "
+                  "FIX_KEY), offset-table key-1 and sector keys key+i, the dword-granular cipher (MpqCrypto.tla), ADLER32 sector checksums and "
+                  "the checksum sector, and the inverse writer; TLC also decides every comparison (trace validation against Trace_MpqFormat.tla). "
+                  "Python does only what the property calls 'standard zlib/bzip2 payloads': zlib/bz2 (de)compression of sector payloads behind the "
+                  "method byte, SHA-1 tokens of contents, and file I/O. Both directions run on TLC-generated configurations (V1/V2 x shift 0..3 x "
+                  "none/zlib/bzip2 x plain/encrypted/fix-key x 10 length classes around the sector size x 5 content classes incl. the "
+                  "stream-one-byte-shorter boundary x ASCII and non-ASCII names x sector checksums; the reference writer also varies "
+                  "single-unit/sectored storage, hash-table size incl. full tables, deleted slots, hi-block table, pre-archive data with and "
+                  "without user data header, a same-name entry of another locale): the reference decodes every library-written archive and the "
+                  "library reads every reference-written archive under four spellings. The reference is model-checked for "
+                  "RefRead(RefWrite(f,c)) = f on 8/16-byte sectors, and each historical deviation of the library is shown to break that round trip.",
+    "level_note": "Trusted: TLC's evaluation of MpqFormat.tla/MpqCrypto.tla/Word32.tla; CPython's zlib/bz2/hashlib. Subset: classic hash/block "
+                  "tables of V1/V2 headers, archives <= ~17 KB (hi-block entries are always 0), no HET/BET, no implode/huffman/ADPCM/LZMA/sparse "
+                  "payloads, checksum sectors stored raw. Six deviations of the library from the published format were found with this check "
+                  "and repaired in /repo (cipher tail d86b8d5, full-path file key f4d4c14, COMPRESS flag of sectored files 9cf2783, per-sector keys "
+                  "of uncompressed files 0f74d94, locale preference 20f0bd8, checksum layout 7734a50); they remain in the specification as named "
+                  "must-refute dialects: a rejected file is reported as dev:<labels> when the smallest combination of them reproduces it exactly, "
+                  "else as unexplained - both are violations unless the corresponding finding is listed as known.",
     "technique": "TLA+ reference implementation (MpqFormat.tla) evaluated by TLC in both directions + Python zlib/bz2; TLC trace validation decides",
     "design_ref": "DESIGN.md section 5, C02",
     "crates": ["c02"],
@@ -397,12 +404,18 @@ def run(ctx, cases_override=None):
         "files_compared_dir2_x4_spellings": nfiles2,
         "traces_validated_against_impl": res["traces"],
         "evaluations": res["events"],
+        "deviation_variant_archives_dir2": nvars,
+        "rule": "program = one archive (library-written and decoded by the reference, or reference-written and read by the library); "
+                "disagreement checked = one file of one archive whose content (SHA-1 token, length, per-sector plain lengths, raw bytes where no "
+                "compression is involved, sector checksums, locale/platform) was compared by TLC between the two implementations - in direction 2 "
+                "under four spellings; header conformance, absent-name lookups and listings are further events per archive",
         "rejected_by_reason": by_why,
         "exhaustive": False,
     }
-    assumptions = ["classic hash/block tables only (V1/V2); sector CRC, HET/BET, locales, implode/huffman/ADPCM/LZMA/sparse outside the subset",
-                   "names are ASCII; archives <= ~17 KB; the reference header search covers 512-byte aligned offsets, user-data headers are not generated",
-                   "zlib/bzip2 streams are produced/consumed by CPython's zlib and bz2 modules"]
+    assumptions = ["classic hash/block tables with V1/V2 headers; HET/BET and implode/huffman/ADPCM/LZMA/sparse payloads are outside the subset",
+                   "archives <= ~17 KB, so hi-block-table entries and the high header words are always 0; checksum sectors are written raw",
+                   "names are UTF-8 strings (the library's API takes &str); spellings tried on read change ASCII case and slash direction only",
+                   "zlib/bzip2 streams are produced/consumed by CPython's zlib and bz2 modules; SHA-1 tokens by hashlib"]
     return core.finish(ctx, "translation_validation", cov, assumptions, res["bad"], sig_fn=sig, trace=trace)
 
 
